@@ -230,7 +230,26 @@ func buildCorpus(e *Env, seed uint64, nMut int, long bool) (*common.Corpus, corp
 		add(strings.Repeat("(", 3000)+"1"+strings.Repeat(")", 3000), common.FLong)
 		add(strings.Repeat("<a", 3000), common.FLong)
 		add(strings.Repeat("<div>", 1500)+strings.Repeat("</div>", 1500), common.FLong)
-		add(strings.Repeat("1,", 30000), common.FLong)
+		// more than 2^16 tokens for either tokenizer (token budgets, 16-bit counters)
+		add(strings.Repeat("1,", 40000), common.FLong)
+		add(strings.Repeat("<b>", 40000), common.FLong)
+		add(strings.Repeat("<a x=1 y=2>", 12000), common.FLong)
+		// the payload only AFTER a long skippable run (whitespace, control and
+		// high bytes, entities, a comment): bounded scratch buffers, clamped
+		// decode windows and "look at the first N bytes" shortcuts cut exactly these
+		for _, n := range []int{600, 2500, 9000, 17000, 40000} {
+			add("<a href=\""+strings.Repeat(" ", n)+"javascript:alert(1)\">x</a>", common.FLong)
+			add("<iframe src='"+strings.Repeat("&#9;\x7f", n/5)+"data:text/html,x'>", common.FLong)
+			add(strings.Repeat(" ", n)+"1 union select 1,2,3 -- ", common.FLong)
+			add("1 /*"+strings.Repeat("x", n)+"*/ union select 1,2,3 -- ", common.FLong)
+			add(strings.Repeat("\t\n", n/2)+"<script>alert(1)</script>", common.FLong)
+			// ... and after a long run that is NOT skippable (must be carried along)
+			add("<a href=\""+strings.Repeat("A", n)+"javascript:alert(1)\">x</a>", common.FLong)
+			add("<img src='http://example.com/"+strings.Repeat("a/", n/2)+"' onerror=alert(1)>", common.FLong)
+			add(fill("", n)+" <script>alert(1)</script>", common.FLong)
+			add(fill("", n)+" ' or 1=1 -- ", common.FLong)
+			add("'"+strings.Repeat("a", n)+"' union select 1,2,3 -- ", common.FLong)
+		}
 		// huge single tokens: thresholds like 64 KiB or 1 MiB sit on token or input size
 		for _, n := range []int{70000, 1100000} {
 			add(strings.Repeat("A", n), common.FHuge|common.FLong)
